@@ -183,6 +183,14 @@ class V:
 
 
 ANYV = V(NAN, 0.0, True)
+
+
+def mk(r, e):
+    """a computed finite value with its bound; not judged when the bound reaches the end of the double range (an
+    evaluation within the tolerance may overflow where this one does not, or the other way round)"""
+    if abs(r) * (1 + 1e-9) + 8 * e >= MAXF:
+        return ANYV
+    return V(r, e)
 ZERO, TWO, HALF = V(0.0), V(2.0), V(0.5)
 
 
@@ -232,7 +240,7 @@ class Oracle:
             return V(r)                       # exact: inf + finite, inf - inf = NaN
         if isinf(r):
             return ANYV                       # finite operands, sum beyond the double range
-        return V(r, p.err + q.err + U * abs(r))
+        return mk(r, p.err + q.err + U * abs(r))
 
     def sub(self, p, q):
         return self.add(p, q, -1.0)
@@ -253,7 +261,7 @@ class Oracle:
         e = abs(x) * q.err + abs(y) * p.err + p.err * q.err + U * abs(r)
         if x != 0 and y != 0:
             e += ETA
-        return V(r, e)
+        return mk(r, e)
 
     def div(self, p, q, scalar=None):
         """x / y; `scalar` says which operand is a number in the expression ("right": feature/number,
@@ -277,7 +285,7 @@ class Oracle:
         if isinf(r):
             return ANYV
         ay = abs(y) - q.err
-        return V(r, (p.err + abs(r) * q.err) / ay + U * abs(r) + ETA)
+        return mk(r, (p.err + abs(r) * q.err) / ay + U * abs(r) + ETA)
 
     def power(self, p, q):
         """Python's float ** float (the documented definition of POWER is x1(t) ** x2(t))"""
@@ -404,7 +412,7 @@ class Oracle:
                 return V(r)
             if e > 1e-3:
                 return ANYV
-            return V(r, 1.01 * r * e + 2 * U * r + ETA)
+            return mk(r, 1.01 * r * e + 2 * U * r + ETA)
         if f in ("COS", "SIN", "TAN"):
             if isnan(x):
                 return V(NAN)
@@ -414,7 +422,7 @@ class Oracle:
             if f == "TAN":
                 if e * (1 + r * r) > 1e-3 * (1 + abs(r)):
                     return ANYV
-                return V(r, 1.01 * e * (1 + r * r) + 4 * U * abs(r) + ETA)
+                return mk(r, 1.01 * e * (1 + r * r) + 4 * U * abs(r) + ETA)
             return V(r, e + 4 * U * abs(r) + (U if e > 0 else 0.0))
         if f == "DIODE":                      # 1[x>0] * x(t)
             if isnan(x):
@@ -442,7 +450,7 @@ class Oracle:
         if n % 2:
             return V(vals[n // 2].v, e)
         m = self.mul(HALF, self.add(vals[n // 2 - 1], vals[n // 2]))
-        return m if m.any else V(m.v, e + U * abs(m.v) + ETA)
+        return m if m.any else mk(m.v, e + U * abs(m.v) + ETA)
 
     def agg(self, f, a):
         if any(p.any for p in a):
@@ -466,7 +474,7 @@ class Oracle:
         if f in ("VAR", "STD"):
             m = self.div(self.total(vals), cnt)
             if m.any:
-                return ANYV
+                raise OutOfDomain("mean at the end of the double range: the squares may overflow (** raises)")
             var = self.div(self.total([self.power(self.sub(p, m), TWO) for p in vals]), cnt)
             return var if f == "VAR" else self.sqrt_nonneg(var)
         if f in ("MSE", "RMSE"):
@@ -1475,6 +1483,11 @@ class P(Prop):
                     return name
             except Exception:
                 pass
+        try:        # several of them in one expression (ABS of an infinity under a number/feature division, ...)
+            if self.judge(case, impl_out, quirks=tuple(self.QUIRKS)) is None:
+                return next(iter(self.QUIRKS.values()))
+        except Exception:
+            pass
         return None
 
     _listed = None
